@@ -312,6 +312,7 @@ func byteMutate(r *rand.Rand, base []byte) []byte {
 	return d
 }
 
+var mapLineRx = regexp.MustCompile(`^\s*[0-9a-f]+-[0-9a-f]+[: ]`)
 var numRx = regexp.MustCompile(`-?\b(0x[0-9a-fA-F]+|\d+)\b`)
 
 // token-level mutation of legacy text
@@ -322,7 +323,15 @@ func textMutate(r *rand.Rand, doc []byte) []byte {
 			break
 		}
 		i := r.Intn(len(lines))
-		switch r.Intn(9) {
+		switch r.Intn(10) {
+		case 9: // memory-map entry with an odd object name
+			names := []string{"(deleted)", " (deleted)", "", "[vdso]", "/anon_hugepage (deleted)", "/anon_hugepage", "[heap]", "//anon", "a b c", "/x/y (deleted)", "(", "\x00"}
+			if mapLineRx.MatchString(lines[i]) {
+				f := strings.Fields(lines[i])
+				lines[i] = strings.Join(f[:len(f)-1], " ") + " " + names[r.Intn(len(names))]
+			} else {
+				lines = append(lines, "MAPPED_LIBRARIES:", "00400000-00500000 r-xp 00000000 00:00 0 "+names[r.Intn(len(names))], "00600000-00700000 r-xp 00000000 00:00 0 /bin/x")
+			}
 		case 0: // number games
 			locs := numRx.FindAllStringIndex(lines[i], -1)
 			if len(locs) > 0 {
